@@ -27,3 +27,119 @@ def ob_nlri_rt(ip: int) -> bool:
     raw = Update.construct({'attr': {4: 5}, 'nlri': [pfx]})
     out = Update.parse(None, raw[19:])
     return out['nlri'] == [pfx]
+
+from yabgp.message.attribute.nexthop import NextHop
+def ob_nh_construct(b: int) -> bool:
+    assume(0 <= b < 256)
+    ip = '%s.%s.%s.%s' % (10, b, 0, 1)
+    raw = NextHop.construct(ip)
+    return raw == bytes([0x40, 3, 4, 10, b, 0, 1])
+
+def ob_nh_fmt(b: int) -> bool:
+    assume(0 <= b < 256)
+    ip = '%s.%s.%s.%s' % (10, b, 0, 1)
+    return len(ip) >= 8
+
+def ob_nh_parse(b: int) -> bool:
+    assume(0 <= b < 256)
+    ip = '%s.%s.%s.%s' % (10, b, 0, 1)
+    out = NextHop.parse(bytes([10, b, 0, 1]))
+    return out == ip
+
+def ob_nh_parse2(b: int) -> bool:
+    assume(0 <= b < 256)
+    out = NextHop.parse(bytes([10, b, 0, 1]))
+    return len(out) >= 8
+
+def ob_m1(b: int) -> bool:
+    from vf.env import netaddr_model as m
+    assume(0 <= b < 256)
+    ip = '%s.%s.%s.%s' % (10, b, 0, 1)
+    return m.IPAddress(ip).value == 10*2**24 + b*65536 + 1
+
+def ob_m2(b: int) -> bool:
+    assume(0 <= b < 256)
+    ip = '%s.%s.%s.%s' % (10, b, 0, 1)
+    parts = ip.split('.')
+    return len(parts) == 4
+
+def ob_m3(b: int) -> bool:
+    assume(0 <= b < 256)
+    ip = '%s.%s.%s.%s' % (10, b, 0, 1)
+    parts = ip.split('.')
+    return int(parts[1]) == b
+
+def ob_m4(b: int) -> bool:
+    assume(0 <= b < 256)
+    ip = '%s.%s.%s.%s' % (10, b, 0, 1)
+    return ':' not in ip
+
+def ob_m5(b: int) -> bool:
+    assume(0 <= b < 256)
+    ip = '%s.%s.%s.%s' % (10, b, 0, 1)
+    parts = ip.split('.')
+    p = parts[1]
+    for ch in p:
+        if ch < '0' or ch > '9':
+            return False
+    return True
+
+def ob_m6(b: int) -> bool:
+    assume(0 <= b < 256)
+    ip = '%s.%s.%s.%s' % (10, b, 0, 1)
+    parts = ip.split('.')
+    p = parts[1]
+    if len(p) > 1 and p[0] == '0':
+        return False
+    return True
+
+def ob_m7(b: int) -> bool:
+    assume(0 <= b < 256)
+    ip = '%s.%s.%s.%s' % (10, b, 0, 1)
+    parts = ip.split('.')
+    p = parts[1]
+    for ch in p:
+        o = ord(ch)
+        if o < 48 or o > 57:
+            return False
+    return True
+def ob_m8(b: int) -> bool:
+    assume(0 <= b < 256)
+    ip = '%s.%s.%s.%s' % (10, b, 0, 1)
+    parts = ip.split('.')
+    p = parts[1]
+    return p.isdigit()
+
+def ob_atomic(a: int) -> bool:
+    assume(0 <= a < 2 ** 32)
+    raw = Update.construct({'attr': {4: a, 6: ''}})
+    out = Update.parse(None, raw[19:])
+    return out['attr'] == {4: a, 6: ''}
+
+from yabgp.message.attribute.community import Community
+def ob_c1(a: int) -> bool:
+    assume(0 <= a < 65536)
+    raw = Community.construct(['100:%s' % a])
+    return len(raw) == 7
+
+def ob_c2(a: int) -> bool:
+    assume(0 <= a < 65536)
+    s = '100:%s' % a
+    v = s.split(':')
+    return int(v[0]) * 65536 + int(v[1]) == 100 * 65536 + a
+
+def ob_c3(a: int) -> bool:
+    assume(0 <= a < 65536)
+    s = ('100:%s' % a).upper()
+    return len(s) >= 5
+
+def ob_c4(a: int) -> bool:
+    assume(0 <= a < 65536)
+    s = ('100:%s' % a)
+    d = {'NO_EXPORT': 1, 'NOPEER': 2, 'ABCDE': 3, 'ABCDEFGH': 5}
+    return s not in d
+
+def ob_c5(a: int) -> bool:
+    assume(0 <= a < 65536)
+    out = Community.parse(bytes([0, 100, a // 256, a % 256]))
+    return out == ['100:%s' % a]
